@@ -90,6 +90,7 @@ fn main() {
         "c06-one" => props::c0607::replay_one("C06", &arg(&args, "--fen").unwrap(), arg(&args, "--depth").unwrap().parse().unwrap(), &arg(&args, "--at").unwrap(), arg(&args, "--final-depth").and_then(|x| x.parse().ok())),
         "c07-one" => props::c0607::replay_one("C07", &arg(&args, "--fen").unwrap(), arg(&args, "--depth").unwrap().parse().unwrap(), &arg(&args, "--at").unwrap(), None),
         "c06-history" => props::c0607::replay_history(&arg(&args, "--fen").unwrap(), arg(&args, "--depth").unwrap().parse().unwrap(), arg(&args, "--at").unwrap().parse().unwrap()),
+        "c07-go" => props::c0607::replay_go(&arg(&args, "--cmds").unwrap()),
         "c10" => {
             props::c10::run(&tier, seed, &out);
             0
